@@ -84,9 +84,14 @@ type shortReader struct {
 	lastEmpty bool
 	// eofData: the last fragment is returned together with io.EOF (allowed by io.Reader; TLS connections and pipes do it)
 	eofData bool
+	// pause: called at the start of every Read (a source may block: other goroutines run meanwhile)
+	pause func()
 }
 
 func (s *shortReader) Read(p []byte) (int, error) {
+	if s.pause != nil {
+		s.pause()
+	}
 	if s.empty && !s.lastEmpty && len(p) > 0 {
 		s.lastEmpty = true
 		return 0, nil
